@@ -31,6 +31,7 @@ var utInfos = []utInfo{
 	{ifs: []int{0}, pp: true}, {ifs: []int{2}, lazy: true, runner: true}, {ifs: []int{0, 1}, f1: true}, {ifs: []int{1}, qual: true},
 	{ifs: []int{0, 1}, pp: true}, {ifs: []int{1}, pp: true},
 	{ifs: []int{0, 2}}, {ifs: []int{1}, qual: true}, {ifs: []int{0}, pp: true},
+	{ifs: []int{1}, pp: true}, {ifs: []int{2}, pp: true},
 }
 
 var namePool = []string{"a", "b", "c", "d", "e", "f", "ga", "gz", "h", "k", "la", "lz", "m", "n", "p", "q", "s", "t", "u", "w", "x", "y", "za", "zz"}
@@ -86,7 +87,7 @@ func (g *gBuilder) nameOf(i int) string {
 func (g *gBuilder) randType(pred func(utInfo) bool) int {
 	for tries := 0; tries < 200; tries++ {
 		t := g.r.Intn(universeTypeCount)
-		if t == 14 || t == 19 {
+		if t == 14 || t == 19 || t == 23 || t == 24 {
 			continue // the priority post-processor types are only added on purpose (at most one per scenario)
 		}
 		if pred == nil || pred(utInfos[t]) {
@@ -487,6 +488,37 @@ func genSiblings(r *hx.Rng) *gScen {
 		}
 		if r.P(1, 3) {
 			g.sc.nodes[h].slots["X1"] = "w,qualifier=" + q
+		}
+	}
+	return g.sc
+}
+
+// user post-processors that are legal but unusual: T23 sorts between discovery and narrowing and answers false to
+// PostProcessAfterInstantiation for everybody (only its OWN PostProcessProperties is skipped by that); T24 filters its argument
+// slice in place (harmless while every processor is handed its own slice). Holders have configuration values and several
+// wire points with Primary / unnamed / qualifier preferences.
+func genOddProcessors(r *hx.Rng) *gScen {
+	g := newBuilder(r)
+	if r.P(2, 3) {
+		g.addNode(23, true)
+	}
+	if r.P(2, 3) {
+		g.addNode(24, true)
+	}
+	np := 3 + r.Intn(4)
+	for i := 0; i < np; i++ {
+		g.addNode(g.randType(func(u utInfo) bool { return len(u.ifs) > 0 && !u.pp }), r.P(1, 3))
+	}
+	nh := 1 + r.Intn(2)
+	for j := 0; j < nh; j++ {
+		h := g.addNode(g.randType(func(u utInfo) bool { return !u.pp }), r.P(1, 3))
+		g.sc.nodes[h].cfg = 1
+		g.randomSlots(h, 2+r.Intn(3))
+		if r.P(1, 2) {
+			g.sc.nodes[h].slots["S0"] = "w"
+		}
+		if r.P(1, 2) {
+			g.sc.nodes[h].slots["X0"] = "w"
 		}
 	}
 	return g.sc
@@ -950,6 +982,7 @@ func graphCorpus(w *hx.Writer) {
 		emitGraph(genSelf(r.Fork()), []string{"corpus", "self"}, w)
 		emitGraph(genArrayCycle(r.Fork()), []string{"corpus", "arraycycle"}, w)
 		emitGraph(genAllOptional(r.Fork()), []string{"corpus", "alloptional"}, w)
+		emitGraph(genOddProcessors(r.Fork()), []string{"corpus", "oddpp"}, w)
 		if i < 12 {
 			emitGraph(genTolerated(r.Fork()), []string{"corpus", "tolerated"}, w)
 			emitGraph(genRetryCycle(r.Fork(), i%5), []string{"corpus", "retrycycle"}, w)
@@ -1022,6 +1055,8 @@ func graphGen(rng *hx.Rng, n int, tier string, w *hx.Writer) {
 			tag := "func"
 			if r.P(1, 3) {
 				sc, tag = genRetry(r), "retry"
+			} else if r.P(1, 3) {
+				sc, tag = genOddProcessors(r), "oddpp"
 			}
 			if active() {
 				emitGraph(sc, []string{tag}, w)
